@@ -164,7 +164,10 @@ func Shorten(reg *Registry, m Mapping) mapper.Mapper[*Account] {
 		splitPos := a.Level() - suffix
 		ss := a.Segments()
 		pref, suff := ss[:splitPos], ss[splitPos:]
-		return reg.MustGetPath(append(pref[:level], suff...))
+		path := make([]string, 0, level+len(suff))
+		path = append(path, pref[:level]...)
+		path = append(path, suff...)
+		return reg.MustGetPath(path)
 	}
 }
 
